@@ -3,7 +3,7 @@ Monitors: the saved .npy of every run of the whip entry point is compared bit fo
 covering grid of the model (cast to the requested dtype); the M1 schedule controller replays
 every completion order of the per-file read tasks of each level (imap_unordered delivers in
 the chosen order), in-process and fork-per-task."""
-import os, random, itertools
+import os, random, itertools, shutil
 import numpy as np
 from .. import common, gen, refparse, workload, pools, contracts
 
@@ -17,7 +17,7 @@ RULE = ("cases = generated 3D plotfiles (any layout, 1-3 levels) x field x dtype
         "and >=2 files on some level under a non-identity completion order")
 ASSUMPTIONS = ["tasks atomic per binary file; the parent applies results in delivery order",
                "generator trusted"]
-REQUIRED_OBS = {"runs": 50, "schedules_nonidentity": 10, "limited": 10, "float32": 20}
+REQUIRED_OBS = {"real_pool_runs": 3, "runs": 50, "schedules_nonidentity": 10, "limited": 10, "float32": 20}
 TIMEOUT = {"quick": 600, "thorough": 3000}
 
 
@@ -35,6 +35,13 @@ def cases(tier, seed):
             c["gen"]["aniso"] = [1.0 / 6, 1.0 / 3, 1.0 / 12]
             c["gen"]["nlevels"] = 3 if c["gen"]["bf"] <= 2 else max(2, c["gen"]["nlevels"])
             c["fmt"]["floatfmt"] = "6g"
+    # the entry point under real pools, for every start method a platform may have (fork: Linux up to Python
+    # 3.13; spawn: macOS, Windows; forkserver: Linux from 3.14 - with the last two the workers re-import the
+    # modules instead of inheriting the parent's state)
+    combos = [(3, "fork"), (2, "spawn"), (3, "forkserver")] if tier == "quick" else \
+        [(w, st) for st in ("fork", "spawn", "forkserver") for w in (1, 2, 5)]
+    for k in range(1 if tier == "quick" else 4):
+        cs.append({"kind": "real_pools", "seed": seed * 100 + 31 + k, "combos": combos})
     return cs
 
 
@@ -43,7 +50,44 @@ def setup():
     contracts.install(("expand",))
 
 
+def run_real_pools(case, work, rec):
+    """whip in subprocesses under real multiprocessing pools (forced worker counts, injected delays) and every
+    start method; the saved array is compared with the covering grid of the model"""
+    import json, subprocess
+    from .. import scenarios
+    m, _ = scenarios._plt(os.path.join(work, "model"), "plt_w", case["seed"], nlevels=3, bf=2, base_blocks=(2, 2), maxsz=4)
+    with np.errstate(all="ignore"):
+        exp = gen.covering(m, m.names.index("f1"), m.nlevels - 1)
+    env = dict(os.environ, PYTHONPATH=common.VERIF)
+    for wi, (w, start) in enumerate(case["combos"]):
+        spec = {"scenario": "whip", "seed": case["seed"], "workers": w, "delay_seed": case["seed"] * 3 + wi,
+                "work": os.path.join(work, f"{start}{w}"), "start": start}
+        key = ("real_pools", case["seed"], w, start)
+        descr = f"field=f1 (second field) {w} workers, start method {start}"
+        p = subprocess.run([common.PY, "-m", "vlib.realpool", json.dumps(spec)], capture_output=True, text=True,
+                           timeout=600, cwd=common.VERIF, env=env)
+        r = next((json.loads(l[7:]) for l in p.stdout.split("\n") if l.startswith("RESULT ")), None)
+        if r is None:
+            rec.undecided(f"real-pool run gave no result (exit {p.returncode})")
+            continue
+        rec.count("real_pool_runs"); rec.seen("start_methods", start)
+        out = os.path.join(spec["work"], "out", "ugrid.npy")
+        if not r.get("ok") or not os.path.exists(out):
+            rec.violation(f"whip raised under a real pool ({r.get('error')}): {descr}", key=key, witness={"trace": r.get("trace")})
+            continue
+        got = np.load(out)
+        if got.shape != exp.shape or got.tobytes() != np.ascontiguousarray(exp).tobytes():
+            nbad = int(np.sum(got != exp)) if got.shape == exp.shape else -1
+            rec.violation(f"uniform grid is not the covering grid ({nbad} of {got.size} cells differ from the covering grid): {descr}",
+                          key=key, witness={"config": descr})
+        else:
+            rec.ok(key, True)
+        shutil.rmtree(spec["work"], ignore_errors=True)
+
+
 def run_case(case, work, rec):
+    if case.get("kind") == "real_pools":
+        return run_real_pools(case, work, rec)
     cli = common.repo_module("amr_kitchen.whip.cli")
     rng = random.Random(case["sel_seed"])
     m, path = workload.build(case, work)
